@@ -20,6 +20,10 @@ package ext
 //@   ensures len(slice) == 16 ==> result0.Is6() && result1
 //@   ensures len(slice) != 4 && len(slice) != 16 ==> !result1
 
+//@ trusted func net/netip.IPv4Unspecified
+//@   pure
+//@   ensures result.IsValid() && result.Is4()
+
 // logging helpers of the repository itself (stringer-generated / fmt-based String methods used only in log
 // calls): assumed free of side effects, not verified
 //@ trusted func github.com/osrg/gobgp/v4/pkg/packet/bgp.(FSMState).String
